@@ -148,6 +148,12 @@ pub fn check(c: &Case, obs: &mut Obs) -> Result<(), String> {
     // pkg_summary accessors give the same split for non-empty base and version
     if has_dash && !base.is_empty() && !version.is_empty() && !n.contains(['\r', '\n']) {
         let mut s = Summary::new();
+        // the object has held (and answered for) another name before: nothing of it may remain
+        if let Some(i) = n.find('-') {
+            let earlier = format!("{}-9", &n[..i]);
+            s.set_pkgname(&earlier);
+            let _ = (s.pkgbase(), s.pkgversion());
+        }
         s.set_pkgname(n);
         obs.verdicts += 1;
         if s.pkgbase() != Some(base) || s.pkgversion() != Some(version) {
@@ -157,6 +163,33 @@ pub fn check(c: &Case, obs: &mut Obs) -> Result<(), String> {
             ));
         }
         obs.class("summary-accessors-compared");
+    }
+    // best_match compares the same PKGVERSION (text after the last '-') and revision
+    if has_dash && crate::models::dewey::longest_digit_run(version) <= 17 {
+        let star = Pattern::new("*").map_err(|e| e.to_string())?;
+        let (higher, lower): (String, Option<String>) = match tail_rev {
+            Some((at, digits)) if digits.len() <= 17 => {
+                let r: i64 = digits.parse().unwrap();
+                (format!("{}-{}nb{}", base, &version[..at], r + 1), if r > 0 { Some(format!("{}-{}nb{}", base, &version[..at], r - 1)) } else { None })
+            }
+            // (the comparison reads "nb" case-insensitively, so "NB" counts as a revision too)
+            _ if !version.to_ascii_lowercase().contains("nb") => (format!("{}nb1", n), None),
+            _ => (String::new(), None),
+        };
+        if !higher.is_empty() {
+            for (x, y) in [(n, higher.as_str()), (higher.as_str(), n)] {
+                obs.verdicts += 1;
+                if star.best_match(x, y) != Some(higher.as_str()) {
+                    return Err(format!("best_match('*'; {:?}, {:?}) = {:?}: the candidate with the higher PKGREVISION must win", x, y, star.best_match(x, y)));
+                }
+            }
+            if let Some(lo) = &lower {
+                if star.best_match(n, lo) != Some(n) {
+                    return Err(format!("best_match('*'; {:?}, {:?}) = {:?}: the candidate with the higher PKGREVISION must win", n, lo, star.best_match(n, lo)));
+                }
+            }
+            obs.class("best_match-probed");
+        }
     }
     // the matcher splits at the same place: a pattern whose base is only the part before an
     // *earlier* '-' must not match
